@@ -93,8 +93,9 @@ def rule_r1_r5(facts, rep):
         in_loop = any(p.get("k") == "closure" and any(pp.get("k") == "mcall" and pp["name"] in ("for_each", "map") and pp.get("recv") is not None and "affected" in fb.show(pp["recv"]) for pp in c.parents(p)[:2]) for p in ps)
         if not in_loop:
             use("build_key(new)", bk["args"][0])
-    if guard_key and guard_key[0] is not None:
-        uses.append(("taken-name guard", guard_key[0], guard_key[1], None))
+    if guard is not None:
+        mk0 = [x for x in fb.walk(guard["c"]) if x.get("k") == "mcall" and x["name"] == "maybe_key"][0]
+        uses.append(("taken-name guard", guard_key[0] if guard_key else None, guard_key[1] if guard_key else None, mk0["args"][0]))
     ids = set(u[1] for u in uses)
     key = f.def_ + "|single-new-key"
     if len(uses) < 6:
@@ -452,3 +453,10 @@ def rule_r3_r4(facts, rep):
 def run(facts, rep, tier):
     rule_r1_r5(facts, rep)
     rule_r3_r4(facts, rep)
+    # the affected set is read from the reference index: it is only as complete as the index
+    rep.rule("C08-R7", "= C04-R1 / C04-R2 / C04-R6: rename finds the notes to rewrite through the reference index, so the index must be read through the tombstone filter, the walker must "
+                       "reach every node, and re-indexing one note must not drop the other notes' references (a referrer missing from the index keeps a dangling link).")
+    from . import c04
+    c04.rule_r1(facts, rep, "C08-R7")
+    c04.rule_r2(facts, rep, "C08-R7b")
+    c04.rule_r6(facts, rep, "C08-R7c")
